@@ -3,6 +3,8 @@
 pub mod cli;
 pub mod engine;
 pub mod entropy;
+pub mod fuzz;
+pub mod fuzzrun;
 pub mod gen;
 pub mod props;
 pub mod refimpl;
